@@ -20,6 +20,7 @@ pub async fn run(op: &str, a: &[String]) -> Option<Vec<String>> {
         "idle" => idle(a).await,
         "keepalive" => keepalive(a).await,
         "reload" => reload(a).await,
+        "builder" => builder(a).await,
         "alpn" => alpn(a).await,
         _ => return None,
     })
@@ -869,6 +870,186 @@ async fn reload(a: &[String]) -> Vec<String> {
 }
 
 // ---------------------------------------------------------------------------------------------
+// builder  which path
+//
+// The endpoint `which` is built through `path` ∈ {custom_tls, custom_transport,
+// custom_tls_and_transport, quic_config, socket}; the other endpoint through the plain identity /
+// no-validation path. Paths that take a transport configuration get `max_idle_timeout = 700 ms`
+// in it. A session is established and left idle.
+// obs: `bound=<true|false>` (loopback v4 address; for `socket` the port of the pre-bound socket)
+// `live=<established|…>` `alpn=<hex>` `idle=<timed_out|alive|…>` (after 2 s, seen by `which`).
+
+async fn builder(a: &[String]) -> Vec<String> {
+    use wtransport::config::QuicTransportConfig;
+    let which = arg(a, 0).to_string();
+    let path = arg(a, 1).to_string();
+    let server_side = which == "server";
+    let fail = |e: String| {
+        vec![
+            "bound=-".to_string(),
+            "live=-".into(),
+            "alpn=-".into(),
+            "idle=-".into(),
+            format!("err={e}"),
+        ]
+    };
+    let rt = match TestRt::new(RT) {
+        Ok(rt) => rt,
+        Err(e) => return fail(e),
+    };
+    let transport = || {
+        let mut tc = QuicTransportConfig::default();
+        tc.max_idle_timeout(Some(quinn::VarInt::from_u32(700).into()));
+        tc
+    };
+    let path2 = path.clone();
+    let built = rt
+        .run(async move {
+            trap_sync(move || {
+                let id = self_signed()?;
+                let lo4 = SocketAddr::from((Ipv4Addr::LOCALHOST, 0));
+                let mut want_port: Option<u16> = None;
+                // ---- server
+                let scfg = if server_side {
+                    let b = ServerConfig::builder();
+                    match path2.as_str() {
+                        "custom_tls" => b
+                            .with_bind_address(lo4)
+                            .with_custom_tls(wtransport::tls::server::build_default_tls_config(id))
+                            .build(),
+                        "custom_transport" => b.with_bind_address(lo4).with_custom_transport(id, transport()).build(),
+                        "custom_tls_and_transport" => b
+                            .with_bind_address(lo4)
+                            .with_custom_tls_and_transport(
+                                wtransport::tls::server::build_default_tls_config(id),
+                                transport(),
+                            )
+                            .build(),
+                        "quic_config" => {
+                            let tls = wtransport::tls::server::build_default_tls_config(id);
+                            let crypto = quinn::crypto::rustls::QuicServerConfig::try_from(tls)
+                                .map_err(|_| "crypto".to_string())?;
+                            let mut qc = quinn::ServerConfig::with_crypto(Arc::new(crypto));
+                            qc.transport_config(Arc::new(transport()));
+                            b.with_bind_address(lo4).build_with_quic_config(qc)
+                        }
+                        "socket" => {
+                            let sock = UdpSocket::bind(lo4).map_err(|e| format!("bind:{:?}", e.kind()))?;
+                            want_port = sock.local_addr().ok().map(|a| a.port());
+                            b.with_bind_socket(sock).with_identity(id).build()
+                        }
+                        other => return Err(format!("bad_path:{other}")),
+                    }
+                } else {
+                    ServerConfig::builder().with_bind_address(lo4).with_identity(id).build()
+                };
+                // ---- client
+                let no_verify: Arc<dyn rustls::client::danger::ServerCertVerifier> =
+                    Arc::new(wtransport::tls::client::NoServerVerification::default());
+                let client_tls = || {
+                    wtransport::tls::client::build_default_tls_config(
+                        Arc::new(rustls::RootCertStore::empty()),
+                        Some(no_verify.clone()),
+                    )
+                };
+                let ccfg = if !server_side {
+                    let b = ClientConfig::builder();
+                    match path2.as_str() {
+                        "custom_tls" => b.with_bind_address(lo4).with_custom_tls(client_tls()).build(),
+                        "custom_transport" => b
+                            .with_bind_address(lo4)
+                            .with_no_cert_validation()
+                            .max_idle_timeout(Some(Duration::from_millis(700)))
+                            .map_err(|_| "idle".to_string())?
+                            .build(),
+                        "custom_tls_and_transport" => b
+                            .with_bind_address(lo4)
+                            .with_custom_tls_and_transport(client_tls(), transport())
+                            .build(),
+                        "quic_config" => {
+                            let crypto = quinn::crypto::rustls::QuicClientConfig::try_from(client_tls())
+                                .map_err(|_| "crypto".to_string())?;
+                            let mut qc = quinn::ClientConfig::new(Arc::new(crypto));
+                            qc.transport_config(Arc::new(transport()));
+                            b.with_bind_address(lo4).build_with_quic_config(qc)
+                        }
+                        "socket" => {
+                            let sock = UdpSocket::bind(lo4).map_err(|e| format!("bind:{:?}", e.kind()))?;
+                            want_port = sock.local_addr().ok().map(|a| a.port());
+                            b.with_bind_socket(sock).with_no_cert_validation().build()
+                        }
+                        other => return Err(format!("bad_path:{other}")),
+                    }
+                } else {
+                    ClientConfig::builder().with_bind_address(lo4).with_no_cert_validation().build()
+                };
+                let sep = Endpoint::server(scfg).map_err(|e| format!("bind:{:?}", e.kind()))?;
+                let cep = Endpoint::client(ccfg).map_err(|e| format!("bind:{:?}", e.kind()))?;
+                Ok::<_, String>((Arc::new(sep), Arc::new(cep), want_port))
+            })
+        })
+        .await;
+    let (sep, cep, want_port): (Arc<ServerEp>, Arc<ClientEp>, Option<u16>) = match built {
+        Ok(Ok(Ok(x))) => x,
+        Ok(Ok(Err(e))) | Ok(Err(e)) | Err(e) => return fail(e),
+    };
+    let watched_addr = if server_side { sep.local_addr() } else { cep.local_addr() };
+    let bound = match watched_addr {
+        Ok(a) => a.ip() == IpAddr::V4(Ipv4Addr::LOCALHOST) && want_port.map(|p| p == a.port()).unwrap_or(a.port() != 0),
+        Err(_) => false,
+    };
+    let port = match sep.local_addr() {
+        Ok(a) => a.port(),
+        Err(e) => return fail(format!("local_addr:{:?}", e.kind())),
+    };
+    let sep2 = sep.clone();
+    let server_task = rt.spawn(async move { accept_session(&sep2).await });
+    let cep2 = cep.clone();
+    let client_res = rt
+        .run(async move {
+            match bounded(cep2.connect(format!("https://127.0.0.1:{port}/"))).await {
+                None => Err("timeout".to_string()),
+                Some(Ok(c)) => Ok(c),
+                Some(Err(e)) => Err(canon::connecting_err(&e)),
+            }
+        })
+        .await;
+    let client_conn = match client_res {
+        Ok(Ok(c)) => c,
+        Ok(Err(e)) | Err(e) => {
+            return vec![format!("bound={bound}"), format!("live={e}"), "alpn=-".into(), "idle=-".into()]
+        }
+    };
+    let server_conn = match joined(server_task).await {
+        Ok(Ok(c)) => c,
+        Ok(Err(e)) | Err(e) => {
+            return vec![format!("bound={bound}"), format!("live=server:{e}"), "alpn=-".into(), "idle=-".into()]
+        }
+    };
+    let watched = if server_side { &server_conn } else { &client_conn };
+    let alpn = watched
+        .quic_connection()
+        .handshake_data()
+        .and_then(|d| d.downcast::<quinn::crypto::rustls::HandshakeData>().ok())
+        .and_then(|d| d.protocol)
+        .map(|p| hex(&p))
+        .unwrap_or_else(|| "-".to_string());
+    tokio::time::sleep(Duration::from_millis(2000)).await;
+    let idle = match watched.quic_connection().close_reason() {
+        None => "alive".to_string(),
+        Some(e) => canon::quinn_conn_err(&e),
+    };
+    drop(server_conn);
+    drop(client_conn);
+    vec![
+        format!("bound={bound}"),
+        "live=established".to_string(),
+        format!("alpn={alpn}"),
+        format!("idle={idle}"),
+    ]
+}
+
+// ---------------------------------------------------------------------------------------------
 // idle  which ms
 
 async fn idle(a: &[String]) -> Vec<String> {
@@ -1086,6 +1267,11 @@ fn gen_c20(emit: &mut dyn FnMut(&str, Vec<String>)) {
     }
     for rebind in ["false", "true"] {
         emit("reload", vec![s(rebind)]);
+    }
+    for which in ["server", "client"] {
+        for path in ["custom_tls", "custom_transport", "custom_tls_and_transport", "quic_config", "socket"] {
+            emit("builder", vec![s(which), s(path)]);
+        }
     }
     for which in ["server", "client"] {
         emit("alpn", vec![s(which)]);
